@@ -31,9 +31,9 @@ class Labels:
         f = {"int": lambda i: i,
              "str": lambda i: "" if i == 0 else "s%d" % i,
              "tuple": lambda i: () if i == 0 else (i,)}
-        self.s = [f[sk](i) for i in range(n + 2)]          # a little beyond n: list overrides may name extra states
+        self.s = [f[sk](i) for i in range(max(n + 2, 16))]          # a little beyond n: list overrides may name extra states
         fa = {"int": lambda j: j, "str": lambda j: "" if j == 0 else "a%d" % j}
-        self.a = [fa[ak](j) for j in range(nA + 2)]
+        self.a = [fa[ak](j) for j in range(max(nA + 2, 8))]
         self.ds = {x: i for i, x in enumerate(self.s)}
         self.da = {x: j for j, x in enumerate(self.a)}
 
@@ -387,45 +387,82 @@ def sim_json(res):
             "final": LAB.dS(last["state"]), "final_keys": sorted(last.keys()), "len": len(res)}
 
 
+def base_lists_of(base, spec):
+    if not spec["tabular"]:
+        return None
+    return attempt(lambda: [[LAB.dS(x) for x in base.state_list], [LAB.dA(x) for x in base.action_list]])
+
+
+def make_planned_option(ospec, base0, log, n):
+    """PlanToSubgoalOption on the first base with a ValueIteration policy; its roll-outs are recorded"""
+    from msdm.core.semimdp.option import PlanToSubgoalOption
+    from msdm.algorithms.valueiteration import ValueIteration
+    opt = PlanToSubgoalOption(mdp=base0, initial_states=[LAB.S(s) for s in range(n)],
+                              subgoals=[LAB.S(s) for s in range(n) if ospec["terminal"][s]],
+                              planner=ValueIteration(max_iterations=30), max_steps=int(ospec["max_steps"]))
+    pol = opt.policy
+    orig = pol.run_on
+
+    def run_on(*a, **k):
+        res = orig(*a, **k)
+        log.append(res)
+        return res
+    pol.run_on = run_on
+    return opt
+
+
 def case_run(case):
-    base = make_base(case["base"])
-    out = {"runs": []}
+    specs = [case["base"]] + list(case.get("more_bases") or [])
+    bases = [make_base(sp) for sp in specs]
+    out = {"runs": [], "base_lists_all": [base_lists_of(b, sp) for b, sp in zip(bases, specs)]}
     if case.get("derive_first"):
         # the option runs on an MDP that is itself DERIVED (and used): Option.run_on augments it again
         from msdm.core.semimdp.option import augment
-        base = augment(base, **ov_funcs(case["derive_first"]["alt"], case["derive_first"]["keys"]))
+        bases[0] = augment(bases[0], **ov_funcs(case["derive_first"]["alt"], case["derive_first"]["keys"]))
         if case["base"]["tabular"]:
-            touch_base(base, True)
-    # ONE option object for all runs of the case (its step limit is changed between runs)
+            touch_base(bases[0], True)
+    # ONE option object for all runs of the case: its step limit is changed between runs, and it is executed on
+    # every base MDP of the case in turn (case["visits"])
     log = []
     o = dict(case["option"]); o["max_steps"] = case["natural_cap"]
-    opt = make_option(o, log, case["base"].get("dist_as", "dict"))
-    s0 = LAB.S(case["s0"])
-    nat = None
-    try:
-        r = opt.run_on(base, s0, rng=random.Random(case["seed"]))
-        nat = len(r) - 1
-    except BaseException as e:
-        if isinstance(e, (KeyboardInterrupt, SystemExit)):
-            raise
-    out["natural_steps"] = nat
-    limits = list(case["ms_abs"])
-    if nat is not None:
-        limits += [nat + d for d in case["ms_rel"] if nat + d >= 0]
-    for ms in limits:
+    if case.get("planned"):
+        opt = make_planned_option(o, bases[0], log, specs[0]["tables"]["n"])
+    else:
+        opt = make_option(o, log, case["base"].get("dist_as", "dict"))
+    out["natural_steps"] = []
+    for vi, bidx in enumerate(case.get("visits", [0])):
+        base = bases[bidx]
+        s0 = LAB.S(case.get("s0s", [case["s0"]])[bidx])
+        opt.max_steps = case["natural_cap"]
         del log[:]
-        opt.max_steps = ms
-        rec = {"max_steps": ms, "raised": None}
+        nat = None
         try:
             r = opt.run_on(base, s0, rng=random.Random(case["seed"]))
-            rec["returned"] = sim_json(r)
+            nat = len(r) - 1
         except BaseException as e:
             if isinstance(e, (KeyboardInterrupt, SystemExit)):
                 raise
-            rec["raised"] = type(e).__name__
-            rec["message_has_max_steps"] = "reached max steps" in str(e)
-        rec["inner"] = [sim_json(x) for x in log]
-        out["runs"].append(rec)
+        out["natural_steps"].append(nat)
+        if vi == 0:
+            limits = list(case["ms_abs"])
+            if nat is not None:
+                limits += [nat + d for d in case["ms_rel"] if nat + d >= 0]
+        else:
+            limits = [case["natural_cap"]] + ([nat + 2, nat + 1] if nat is not None else [3])
+        for ms in limits:
+            del log[:]
+            opt.max_steps = ms
+            rec = {"max_steps": ms, "raised": None, "bidx": bidx, "visit": vi}
+            try:
+                r = opt.run_on(base, s0, rng=random.Random(case["seed"]))
+                rec["returned"] = sim_json(r)
+            except BaseException as e:
+                if isinstance(e, (KeyboardInterrupt, SystemExit)):
+                    raise
+                rec["raised"] = type(e).__name__
+                rec["message_has_max_steps"] = "reached max steps" in str(e)
+            rec["inner"] = [sim_json(x) for x in log]
+            out["runs"].append(rec)
     return out
 
 
@@ -438,20 +475,27 @@ def okey_json(k):
 def case_smdp(case):
     from msdm.core.semimdp.semimdp import SemiMarkovDecisionProcess
     from msdm.core.semimdp.option import Option
-    base = make_base(case["base"])
+    specs = [case["base"]] + list(case.get("more_bases") or [])
+    bases = [make_base(sp) for sp in specs]
+    base = bases[0]
     random.seed(case["global_seed"])
     log = []
     opts = [make_option(o, log, case["base"].get("dist_as", "dict")) for o in case["options"]]
-    smdp = SemiMarkovDecisionProcess(mdp=base, options=opts, n_option_simulations=case["n"],
-                                     include_mdp_actions=case["include"], seed=case["seed"])
+    # one semi-MDP per base MDP, all sharing the SAME option objects
+    smdps = [SemiMarkovDecisionProcess(mdp=b, options=opts, n_option_simulations=case["n"],
+                                       include_mdp_actions=case["include"], seed=case["seed"]) for b in bases]
+    smdp = smdps[0]
 
     def enc_action(a):
         if isinstance(a, Option):
             return ["opt", [i for i, o in enumerate(opts) if o is a][0]]
         return ["prim", LAB.dA(a)]
-    out = {"actions": attempt(lambda: [enc_action(a) for a in smdp.actions(LAB.S(case["s"]))]), "queries": []}
+    out = {"actions": attempt(lambda: [enc_action(a) for a in smdp.actions(LAB.S(case["s"]))]), "queries": [],
+           "base_lists_all": [base_lists_of(b, sp) for b, sp in zip(bases, specs)],
+           "base_discounts": [fj(b.discount_rate) for b in bases]}
     seeds_seen = []
-    for kind, idx, sid in case["queries"]:
+    for kind, idx, sid, bidx in case["queries"]:
+        smdp = smdps[bidx]
         s = LAB.S(sid)
         a = opts[idx] if kind == "opt" else LAB.A(idx)
         q = {}
@@ -471,9 +515,10 @@ def case_smdp(case):
                 rec["raised"] = type(e).__name__
             rec["sims"] = [sim_json(x) for x in log]
             q[name] = rec
-            seeds_seen.append(smdp.seed)
+            if bidx == 0:
+                seeds_seen.append(smdp.seed)
         out["queries"].append(q)
-    out["seed_after"] = smdp.seed
+    out["seed_after"] = smdps[0].seed
     out["seed_constant_after_first_option_query"] = len({x for x in seeds_seen if x is not None}) <= 1
     out["base_discount"] = fj(base.discount_rate)
     return out
@@ -483,7 +528,9 @@ def one(case, pl):
     out = {"augment": case_augment, "subtask": case_subtask, "run": case_run, "smdp": case_smdp,
            "used": case_used}[case["kind"]](case)
     base, spec = LAST_BASE
-    if spec["tabular"]:
+    if "base_lists_all" in out:
+        out["base_lists"] = out["base_lists_all"][0]
+    elif spec["tabular"]:
         out["base_lists"] = attempt(lambda: [[LAB.dS(x) for x in base.state_list], [LAB.dA(x) for x in base.action_list]])
     return out
 
